@@ -600,6 +600,14 @@ def matrix_cells():
                         for carrier in CARRIERS:
                             cells.append({"kind": "invalid", "what": "lang-value", "linter": name, "section": section, "key": key, "value": value, "lang_key": lang_key,
                                           "carrier": carrier, "spelling": "hyphen"})
+        if L.get("lang_knob"):
+            # per-language override x every language x (no option | the command-line option, which must beat the override)
+            key = L["lang_knob"]
+            vals = dict(L["knobs"])[key]
+            for lang in ("py", "ts", "js", "rs"):
+                for v_lang, v_base, cli in ((vals[-1], vals[0], None), (vals[0], vals[-1], None)) + (((vals[-1], vals[0], vals[0]), (vals[0], vals[-1], vals[-1])) if key in L["cli"] else ()):
+                    cells.append({"kind": "lang", "linter": name, "section": L["sections"][0], "key": key, "lang": lang, "v_lang": v_lang, "v_base": v_base,
+                                  "carrier": CARRIERS[(len(cells)) % len(CARRIERS)], "cli_value": cli})
         for carrier in CARRIERS:
             cells.append({"kind": "invalid", "what": "unparsable", "linter": name, "section": L["sections"][0], "carrier": carrier, "spelling": "hyphen"})
             for form in range(3):
@@ -611,9 +619,9 @@ def run(ctx):
     cells = matrix_cells()
     mine = ctx.my_cells(cells)
     if ctx.quick:  # every invalid-value cell (one CLI call each); half of the sweeps / ignore cells, rotating with the seed
-        mine = [c for i, c in enumerate(mine) if c["kind"] == "invalid" or (i + ctx.seed) % 2 == 0]
+        mine = [c for i, c in enumerate(mine) if c["kind"] in ("invalid", "lang") or (i + ctx.seed) % 2 == 0]
     done = ctx.each(mine, check)
-    ctx.stats.extra.setdefault("matrix", {})["sweep/invalid/ignore cells: section x knob x carrier x spelling"] = {"cells": len(ctx.my_cells(cells)), "done": done}
+    ctx.stats.extra.setdefault("matrix", {})["sweep/invalid/ignore/language-override cells: section x knob x carrier x spelling"] = {"cells": len(ctx.my_cells(cells)), "done": done}
     pairs = [(n, s) for n, L in LINTERS.items() for s in L["sections"]]
     for i, (name, section) in enumerate(pairs):
         if i % ctx.nshards != ctx.shard:
